@@ -10,6 +10,15 @@ F = "src/token.rs"
 r_fmt = make_r_fmt(wmap=lambda w: "&mut " + w)
 r_alpha = make_r_sub("R-charfn", r"\bc\.is_alphabetic\(\)", "vchar_is_alphabetic(c)")
 r_digit = make_r_sub("R-charfn", r"\bc\.is_ascii_digit\(\)", "vchar_is_ascii_digit(c)")
+# further std char predicates a refactoring may reach for (optional: fire only if present)
+r_more_char = [make_r_sub("R-charfn", r"\b(\w+)\.is_whitespace\(\)", r"vchar_is_whitespace(\1)", min_count=0),
+               make_r_sub("R-charfn", r"\b(\w+)\.is_alphanumeric\(\)", r"vchar_is_alphanumeric(\1)", min_count=0),
+               make_r_sub("R-charfn", r"\b(\w+)\.is_numeric\(\)", r"vchar_is_numeric(\1)", min_count=0),
+               make_r_sub("R-charfn", r"\b(\w+)\.is_ascii_alphabetic\(\)", r"vchar_is_ascii_alphabetic(\1)", min_count=0),
+               make_r_sub("R-charfn", r"\b(\w+)\.is_ascii_alphanumeric\(\)", r"vchar_is_ascii_alphanumeric(\1)", min_count=0),
+               make_r_sub("R-charfn", r"\b(\w+)\.is_ascii_whitespace\(\)", r"vchar_is_ascii_whitespace(\1)", min_count=0),
+               make_r_sub("R-charfn", r"\b(\w+)\.is_alphabetic\(\)", r"vchar_is_alphabetic(\1)", min_count=0),
+               make_r_sub("R-charfn", r"\b(\w+)\.is_ascii_digit\(\)", r"vchar_is_ascii_digit(\1)", min_count=0)]
 r_collect = make_r_sub("R-strfn", r"string\.chars\(\)\.collect\(\)", "vstr_chars_collect(string)")
 r_item = make_r_sub("R-iterimpl", r"Option<Self::Item>", "Option<Token>")
 
@@ -215,7 +224,7 @@ def build(u):
     u.fn(F, B, "is_string_escape_for", ret="r", props=P, spec="ensures r == s_escape_for(start, c),")
     u.fn(F, B, "is_string_delimiter_end_for", ret="r", props=P, spec="ensures r == s_end_for(start, c),")
 
-    u.fn(F, B, "space", ret="r", rules=[r_fmt], props=P,
+    u.fn(F, B, "space", ret="r", rules=[r_fmt] + r_more_char, props=P,
          spec=[("requires old(self).wf(),\nensures " + SCAN_FRAME + '''
     r is Some ==> tok_ok(old(self).chars@, old(self).p as int, final(self).p as int, r->Some_0),
     r is None ==> final(self).p == old(self).p && (old(self).p == old(self).chars.len() || !s_is_space(old(self).chars@[old(self).p as int])),''', P),
@@ -229,7 +238,7 @@ ensures
 decreases self.chars.len() - self.p,'''],
          proofs={"after#1:self.inc();": "proof { assert(self.chars@.subrange(old(self).p as int, self.p as int) == self.chars@.subrange(old(self).p as int, self.p - 1).push(c)); }"})
 
-    u.fn(F, B, "unquoted", ret="r", rules=[r_fmt], props=P,
+    u.fn(F, B, "unquoted", ret="r", rules=[r_fmt] + r_more_char, props=P,
          spec=[("requires old(self).wf(),\nensures " + SCAN_FRAME + '''
     r is Some ==> tok_ok(old(self).chars@, old(self).p as int, final(self).p as int, r->Some_0),
     r is None ==> final(self).p == old(self).p && (old(self).p == old(self).chars.len() || !s_is_alnum(old(self).chars@[old(self).p as int])),''', P),
@@ -248,7 +257,7 @@ decreases self.chars.len() - self.p,'''],
                  "after#2:self.inc();": "proof { assert(self.chars@.subrange(old(self).p as int, self.p as int) == self.chars@.subrange(old(self).p as int, self.p - 1).push(c)); }"})
 
     push_c = "proof { assert(self.chars@.subrange(old(self).p as int, self.p as int) == self.chars@.subrange(old(self).p as int, self.p - 1).push(self.chars@[self.p - 1])); }"
-    u.fn(F, B, "quoted", ret="r", rules=[r_fmt], props=P,
+    u.fn(F, B, "quoted", ret="r", rules=[r_fmt] + r_more_char, props=P,
          spec=[("requires old(self).wf(),\nensures " + SCAN_FRAME + '''
     r is Some ==> tok_ok(old(self).chars@, old(self).p as int, final(self).p as int, r->Some_0),
     r is None ==> final(self).p == old(self).p && (old(self).p == old(self).chars.len() || !s_delim_start(old(self).chars@[old(self).p as int])),''', P),
@@ -272,7 +281,7 @@ decreases self.chars.len() - self.p,'''],
          spec="requires self.wf(),",
          loops=["invariant self_.wf(),\ndecreases self_.chars.len() - self_.p,"])
 
-    u.fn(F, B, "punctuation", ret="r", rules=[r_fmt], props=P,
+    u.fn(F, B, "punctuation", ret="r", rules=[r_fmt] + r_more_char, props=P,
          spec=[("requires old(self).wf(),\nensures " + SCAN_FRAME + '''
     r is Some ==> old(self).p < old(self).chars.len() && final(self).p == old(self).p + 1
         && tok_text(r->Some_0) == old(self).chars@.subrange(old(self).p as int, final(self).p as int)
